@@ -401,6 +401,13 @@ def extract_linearizer():
             tmpls.append(t)
     if len(tmpls) != 7:
         errs.append("Display for LinearizationError: %d write! templates instead of 7" % len(tmpls))
+    # the VALUES of the std constants (agent-pre's extract_pre pins their names): `Infinity` in a declared bound must be
+    # the IEEE infinity for the missing-bounds contract of C08
+    std = open(os.path.join(SRC, "runtime_builtin/rooc_std.rs")).read()
+    mc = re.search(r"pub fn make_std_constants\(\).*?\n\}", std, re.S)
+    consts = re.findall(r'Constant::from_primitive\("([A-Za-z]+)",\s*Primitive::Number\(([^()]*)\)\)', mc.group(0)) if mc else []
+    if not consts:
+        errs.append("make_std_constants values")
     if errs:
         print("extractor could not re-read: " + "; ".join(errs))
         return 1
@@ -410,6 +417,8 @@ def extract_linearizer():
     t += f"def linAuxNameFormats : List String := {lst(fmts)}\n"
     t += "/-- the `write!` templates of `impl Display for LinearizationError`, in the order of the enum -/\n"
     t += f"def linErrorTemplates : List String := {lst(tmpls)}\n"
+    t += "/-- `make_std_constants()` (rooc_std.rs): name and the Rust expression of the value -/\n"
+    t += "def stdConstantValues : List (String × String) := [" + ", ".join(f"({lstr(a)}, {lstr(b.strip())})" for a, b in consts) + "]\n"
     t += "end Rooc.Gen\n"
     write_if_changed(os.path.join(GEN, "LinConsts.lean"), t)
     return 0
